@@ -58,7 +58,15 @@ fn single(rep: &mut Report, rng: &mut Rng, idx: u64) {
             e.active = Some(c);
         }
     }
-    let desc0 = json!({"min_size": min, "pre_existing_size": pre, "open_mode": if append_mode { "append" } else { "truncate" }});
+    // a third of the appenders are built by the config-file machinery (trigger kind `onstartup`, min_size given or defaulted)
+    let from_document = rng.chance(1, 3);
+    if from_document {
+        e.via_config = Some(Some(append_mode));
+        e.enc_kind = 0;
+        rep.count("appenders_built_from_config_documents", 1);
+    }
+    let desc0 = json!({"min_size": min, "pre_existing_size": pre, "open_mode": if append_mode { "append" } else { "truncate" },
+        "built_from_a_config_document": from_document});
     let fail = |rep: &mut Report, e: &Engine, sig: &str, what: String| {
         rep.violation(&format!("C17:{}", sig), json!({"case": desc0, "history": e.describe(), "what": what}));
     };
